@@ -39,8 +39,8 @@ def prepared(P, dims):
     return A.reshape(flat, (D, B, bs, SD))
 
 # ---- _get_value_next_state
-def setup_gvns(I):
-    s, P, dims, gamma = mk_solver(I)
+def setup_gvns(I, cls=("ValueIteration", "mdpax.solvers.value_iteration")):
+    s, P, dims, gamma = mk_solver(I, *cls)
     nsv = z3.Const("ns0", VEC)
     return Ctx(self=s, _args=[rowvec(nsv, SD), values_arr()], nsv=nsv)
 contract(f"{VI}._get_value_next_state", setup=setup_gvns,
@@ -48,8 +48,8 @@ contract(f"{VI}._get_value_next_state", setup=setup_gvns,
     ensures={"lookup": lambda c, q: toz3(c.result) == VFUN(IDX(c.nsv))})
 
 # ---- _calculate_updated_state_action_value
-def setup_sav(I):
-    s, P, dims, gamma = mk_solver(I)
+def setup_sav(I, cls=("ValueIteration", "mdpax.solvers.value_iteration")):
+    s, P, dims, gamma = mk_solver(I, *cls)
     sv, av = z3.Const("s0", VEC), z3.Const("a0", VEC)
     return Ctx(self=s, _args=[rowvec(sv, SD), rowvec(av, AD), P.event_space, gamma, values_arr()], sv=sv, av=av, gamma=gamma, V=values_arr())
 contract(f"{VI}._calculate_updated_state_action_value", setup=setup_sav, requires=lambda c, q: req_kernel(c, q, need_actions=False),
@@ -57,8 +57,8 @@ contract(f"{VI}._calculate_updated_state_action_value", setup=setup_sav, require
     ensures={"is_Q": lambda c, q: toz3(c.result) == Q(c.V, c.gamma, c.sv, c.av)})
 
 # ---- _calculate_updated_value
-def setup_uv(I):
-    s, P, dims, gamma = mk_solver(I)
+def setup_uv(I, cls=("ValueIteration", "mdpax.solvers.value_iteration")):
+    s, P, dims, gamma = mk_solver(I, *cls)
     sv = z3.Const("s0", VEC)
     return Ctx(self=s, _args=[rowvec(sv, SD), P.action_space, P.event_space, gamma, values_arr()], sv=sv, gamma=gamma, V=values_arr())
 contract(f"{VI}._calculate_updated_value", setup=setup_uv, requires=lambda c, q: req_kernel(c, q),
@@ -66,8 +66,8 @@ contract(f"{VI}._calculate_updated_value", setup=setup_uv, requires=lambda c, q:
     ensures={"is_B": lambda c, q: toz3(c.result) == Bell(c.V, c.gamma, c.sv)})
 
 # ---- _calculate_updated_value_state_batch: carry is whatever the CALLER packs: (actions, events, gamma, values)
-def setup_batch(I):
-    s, P, dims, gamma = mk_solver(I)
+def setup_batch(I, cls=("ValueIteration", "mdpax.solvers.value_iteration")):
+    s, P, dims, gamma = mk_solver(I, *cls)
     D, B, bs, pad = dims
     BV = z3.Function("batchrow", I_, VEC)
     batch = vec_array((bs, SD), lambda l: BV(toz3(l[0])))
